@@ -31,6 +31,9 @@ def main():
     elif args and args[0] == "--round6":
         src_root, tag = "/tmp/mut6", "r6"
         args = args[1:]
+    elif args and args[0] == "--round7":
+        src_root, tag = "/tmp/mut7", "r7"
+        args = args[1:]
     only = args
     head = sh("git -C /repo rev-parse --short HEAD")[1].strip()
     for pid in sorted(os.listdir(src_root)):
@@ -79,7 +82,7 @@ def main():
                                f"python {demo} (with patch)"]
                 dst = f"/verif/seeded/{name}"
                 os.makedirs(dst, exist_ok=True)
-                for f in ("patch.diff", "demo.py", "notes.md", "blocksrv.py", "blocksim.py", "lss_slave_sim.py", "sample.eds", "fakedrive.py"):
+                for f in ("patch.diff", "demo.py", "notes.md", "blocksrv.py", "blocksim.py", "lss_slave_sim.py", "sample.eds", "fakedrive.py", "drive402.py", "blockserver.py"):
                     if os.path.exists(f"{src}/{f}"):
                         shutil.copy(f"{src}/{f}", f"{dst}/{f}")
                 json.dump(meta, open(f"{dst}/meta.json", "w"), indent=1)
